@@ -3,7 +3,7 @@
    Print Assumptions.  Statements are over the executable model of coq/C19/Model.v, whose
    constants are regenerated from /repo into Gen.v on every run. *)
 From Coq Require Import Permutation.
-From C19 Require Import Model Proofs ProofsMachine ProofsHeap ProofsSpans ProofsOwn.
+From C19 Require Import Model Proofs ProofsMachine ProofsHeap ProofsSpans ProofsOwn ProofsCombined.
 Local Open Scope Z_scope.
 
 (* every small request is served by a class whose blocks are at least as large *)
@@ -231,3 +231,22 @@ Theorem C19_heap_allocate_not_refused_partial : forall psh h ss l1 o l2 size,
   heap_allocate psh h size (so_start o) (so_count o) <> CErrOracle.
 Proof. exact heap_allocate_not_refused. Qed.
 Print Assumptions C19_heap_allocate_not_refused_partial.
+
+(* ---- combined machine, small/medium requests (ProofsCombined.v) ----
+   The heap model runs ON TOP of the span layer: a request that needs a new span takes it from the span
+   layer (a fresh mapping, the reserve, or a cached span, as the history names) - no oracle - and a span a
+   class gives up goes back to the span layer's cache.  cinv st: the span layer's invariant, unique class
+   keys, every span owned by exactly one class, and every span a class owns is a one-span IN-USE object of
+   the span layer.  Over EVERY history of small/medium allocations and frees from any state satisfying cinv
+   (the empty state does: cinv_empty): the heap model never answers CErrOracle (a span is never handed out
+   twice), releasing a span never fails, and cinv is preserved.
+   Not covered: large/huge requests and reallocations that move into them (see UNPROVED). *)
+Theorem C19_combined_history_small_medium : forall psh mc ops st, cinv st -> Forall op_ok ops ->
+  crun psh mc st ops <> CRefusedByHeap /\
+  (forall st' ret, crun psh mc st ops = CDone st' ret -> cinv st').
+Proof. exact combined_history. Qed.
+Print Assumptions C19_combined_history_small_medium.
+
+Theorem C19_combined_empty : cinv (mk_cstate heap_empty sempty).
+Proof. exact cinv_empty. Qed.
+Print Assumptions C19_combined_empty.
